@@ -31,7 +31,7 @@ Ltac z_step :=
 
 Ltac solve_hcase :=
   intros;
-  cbv beta iota zeta delta [heval after with_d P cat_logpdf cat_logcdf cat_cdf nth];
+  cbv beta iota zeta delta [heval after with_d P cat_logpdf cat_logcdf cat_cdf cat_pdfm nth];
   rewrite ?Ztrunc_IZR, ?Ztrunc_half;
   cbv -[Rplus Rminus Rmult Rdiv Ropp Rinv Rabs exp ln Rpower sqrt PI IZR Rltb Rleb Reqb Rpos Rneg
         is_intb Zfloor Ztrunc Z.ltb Z.add
